@@ -38,7 +38,7 @@ class JointDegreeFromExcess:
 
         # choose a common key and a reference topology to scale to
         common_key = common_keys[0]
-        choesn_topology = "2-clique"
+        choesn_topology = keys[0]
 
         # scale all observations to the chosen value
         base_value = p_obs[choesn_topology][common_key]
